@@ -804,21 +804,18 @@ def exc_cast_spellings(repo, tier="quick"):
 # Round 8 (two cooperating sites / sequences): state that crosses calls
 # ---------------------------------------------------------------------------------------------------------------------
 
-def det_sampler_state(repo, tier="quick"):
-    """A MoleculeSampler is built once and sampled from many times.  The only thing one sample() may leave for the next is the
-    position of the sampler's own random generator.  An attribute that sample() or a method it calls assigns, counts up or fills
-    in place is state of the previous molecule: the second molecule drawn from one sampler then differs from the first one of a
-    fresh sampler with the same history (wrong fragment ids, leftover descriptors, shrinking tables)."""
-    oid = "DET.sampler-state"
-    mod = repo.module("sample")
-    cls = "MoleculeSampler"
-    smp = repo.function("sample:%s.sample" % cls)
-    reach = repo.reachable([smp.fq])
-    methods = [fi for q, fi in mod.functions.items() if q.startswith(cls + ".") and fi.fq in reach]
-    need(methods, "anchor vanished: MoleculeSampler.sample not found")
-    obs = []
-    n = 0
+class _Shim:
+    """a FunctionInfo stand-in for the built-in positive examples: .node and .name"""
+    def __init__(self, node):
+        self.node = node
+        self.name = node.name
+
+
+def _sampler_state_sites(methods):
+    """(method, site, attribute, how) for every store into an attribute of self in the given methods; `how` starts with
+    'never-read:' when nothing in these methods reads the attribute."""
     read = _attrs_read(methods)
+    out = []
     for fi in methods:
         for sub in ast.walk(fi.node):
             site, attr, how = None, None, None
@@ -839,13 +836,41 @@ def det_sampler_state(repo, tier="quick"):
                 a = _self_attr(sub.func.value)
                 if a and a not in ("random", "rng"):
                     site, attr, how = sub, a, "modified in place (.%s)" % sub.func.attr
-            if site is not None and attr not in read:
-                obs.append(ob_ok(oid, fi, site, construct="self.%s is %s in %s and never read while sampling" % (attr, how, fi.name), instance=fi.name + ":" + attr,
-                                 reason="a record that no later sample depends on"))
-            elif site is not None:
-                n += 1
-                obs.append(ob_fail(oid, fi, site, construct="self.%s is %s in %s" % (attr, how, fi.name), instance=fi.name + ":" + attr,
-                                   reason="the sampler keeps something of the molecule it has just built: the next sample() of the same sampler starts from it"))
+            if site is not None:
+                is_read = attr in read
+                out.append((fi, site, attr, how if is_read else "never-read:" + how))
+    return out
+
+
+def det_sampler_state(repo, tier="quick"):
+    """A MoleculeSampler is built once and sampled from many times.  The only thing one sample() may leave for the next is the
+    position of the sampler's own random generator.  An attribute that sample() or a method it calls assigns, counts up or fills
+    in place is state of the previous molecule: the second molecule drawn from one sampler then differs from the first one of a
+    fresh sampler with the same history (wrong fragment ids, leftover descriptors, shrinking tables)."""
+    oid = "DET.sampler-state"
+    mod = repo.module("sample")
+    cls = "MoleculeSampler"
+    smp = repo.function("sample:%s.sample" % cls)
+    reach = repo.reachable([smp.fq])
+    methods = [fi for q, fi in mod.functions.items() if q.startswith(cls + ".") and fi.fq in reach]
+    need(methods, "anchor vanished: MoleculeSampler.sample not found")
+    # positive control (the expected number of findings on a correct tree is zero, so the matcher proves itself on every run)
+    ctrl = ast.parse("class S:\n    def sample(self):\n        self.count += 1\n        self.seen.append(self.count)\n        return self.seen\n").body[0].body[0]
+    hits = _sampler_state_sites([_Shim(ctrl)])
+    if {a for _, _, a, _ in hits} != {"count", "seen"}:
+        raise AnalysisError("DET.sampler-state: the built-in positive example is not recognised (matcher broken)")
+    obs = []
+    n = 0
+    for fi, site, attr, how in _sampler_state_sites(methods):
+        if attr is None:
+            continue
+        if how.startswith("never-read:"):
+            obs.append(ob_ok(oid, fi, site, construct="self.%s is %s in %s and never read while sampling" % (attr, how[11:], fi.name), instance=fi.name + ":" + attr,
+                             reason="a record that no later sample depends on"))
+        else:
+            n += 1
+            obs.append(ob_fail(oid, fi, site, construct="self.%s is %s in %s" % (attr, how, fi.name), instance=fi.name + ":" + attr,
+                               reason="the sampler keeps something of the molecule it has just built: the next sample() of the same sampler starts from it"))
     if not obs:
         obs.append(ob_ok(oid, smp, construct="sample() and the %d methods it reaches assign no attribute of the sampler" % (len(methods) - 1), instance="sample",
                          reason="only the random generator advances between two molecules"))
@@ -892,6 +917,10 @@ def own_meta_edges(repo, tier="quick"):
             if bad:
                 obs.append(ob_fail(oid, fi, sub, construct=bad, instance=fi.name, reason="the edges of the coarse graph are the bonds of the previous level (a graph the caller already holds): "
                                    "their descriptor pairs / orders are overwritten by those of the level being resolved"))
+    # positive control: the matcher recognises the store it is there to find
+    ctrl = ast.parse("def f(self, a, b):\n    self.meta_graph.edges[a, b]['bonding'] = 1\n").body[0].body[0]
+    if not (isinstance(ctrl.targets[0], ast.Subscript) and is_meta_edges(ctrl.targets[0])):
+        raise AnalysisError("OWN.meta-edges: the built-in positive example is not recognised (matcher broken)")
     if not obs:
         obs.append(ob_ok(oid, res, construct="no method reachable from resolve() writes an edge of self.meta_graph", instance="resolve",
                          reason="the bonds of the previous level stay as they were handed out"))
